@@ -459,7 +459,7 @@ def custom_names_cases(ctx, res):
             c = aioftp.Client(parse_list_line_custom=custom, parse_list_line_custom_first=True, path_io_factory=aioftp.MemoryPathIO)
             await c.connect("127.0.0.1", wd.port)
             await c.login()
-            got = sorted(str(pathlib.PurePosixPath(*pathlib.PurePosixPath(str(p).replace("\\", "/")).parts)) for p, i in await c.list("/", recursive=recursive))
+            got = sorted(str(pathlib.PurePosixPath(*pathlib.PurePosixPath(str(p).replace("\\", "/")).parts)) for p, i in await c.list(pathlib.PurePosixPath("/"), recursive=recursive))
             await c.quit()
             return got
         finally:
@@ -469,7 +469,7 @@ def custom_names_cases(ctx, res):
                 wd.finish()
 
     for kind in ("str", "PureWindowsPath"):
-        for recursive in (False, True):
+        for recursive in ((False, True) if kind == "str" else (False,)):
             res.cases += 1
             res.count("family=custom-names")
             res.distinct.add(("custom-names", kind, recursive))
